@@ -155,7 +155,8 @@ Print Assumptions program_of_statements_partial.
    c03-tree:empty-statement-same-line), so [xone] leaves the shape out — the only gap inside the listed forms.
    OUTSIDE the fragment (searched by the generator oracle, not proved): for-in / for-of / for await, switch, try, with,
    return and function / class declarations and expressions, let / const declarations, import / export, binding patterns
-   (destructuring), yield / await as names. *)
+   (destructuring), yield / await as names.
+   Instance: Stmts2.v x_example_derivable (a six-statement program mixing the forms, its derivation) and x_example (its tree). *)
 Theorem program_of_statement_fragment_partial :
   forall ts l, xprog ts l -> parse_xprogram false ts = Ok l.
 Proof. exact program_of_statement_fragment_proof. Qed.
